@@ -113,7 +113,9 @@ Record vd := mkvd {
   v_atts : list (Z * att);        (* current attachments: handle -> attachment *)
   v_mover : option Z;             (* the handle that positioned last (attach / seek / read / write) *)
   v_rlset : option Z;             (* the handle that selected fields last *)
-  v_bad : bool                    (* the vdata left the property's domain (e.g. detached without fields) *)
+  v_bad : bool;                   (* the vdata left the property's domain (e.g. detached without fields) *)
+  v_name : list Z;                (* VSsetname / VSsetclass: kept with the table, cut at VSNAMELENMAX characters *)
+  v_class : list Z
 }.
 
 (** Every attachment has its own current record (0 after VSattach) and its own field selection.  The library
@@ -138,6 +140,10 @@ Inductive op :=
 | OReopen
 | OInquire (v : Z)
 | OElts (v : Z)
+| OSetName (v : Z) (name : list Z)
+| OSetClass (v : Z) (name : list Z)
+| OGetName (v : Z)
+| OGetClass (v : Z)
 | OSizeof (v : Z) (names : list (list Z))
 | OField (v idx : Z)
 | ONFields (v : Z)
@@ -218,9 +224,9 @@ Definition view (d : vd) (h : Z) (a : att) : att :=
 (** record the new state of attachment h; [moved]: it (re)positioned, [sel]: it selected fields *)
 Definition store (d : vd) (h : Z) (a : att) (moved sel : bool) : vd :=
   mkvd (v_defs d) (v_schema d) (v_full d) (v_tab d) ((h, a) :: del_att h (v_atts d))
-       (if moved then Some h else v_mover d) (if sel then Some h else v_rlset d) (v_bad d).
+       (if moved then Some h else v_mover d) (if sel then Some h else v_rlset d) (v_bad d) (v_name d) (v_class d).
 Definition with_data (d : vd) (defs : list field) (sch : option schema) (full : bool) (tab : table) (bad : bool) : vd :=
-  mkvd defs sch full tab (v_atts d) (v_mover d) (v_rlset d) bad.
+  mkvd defs sch full tab (v_atts d) (v_mover d) (v_rlset d) bad (v_name d) (v_class d).
 
 Fixpoint find_h (h : Z) (s : state) : option (Z * vd * att) :=
   match s with
@@ -257,7 +263,7 @@ Definition step (s : state) (o : op) : state * res :=
       match lookup v s with
       | Some _ => (s, RUnspec)
       | None => if handle_used v s then (s, RUnspec) else
-                (set v (mkvd [] None true [] [(v, mkatt true (Some 0) None false)] (Some v) None false) s, ROk [] [] [])
+                (set v (mkvd [] None true [] [(v, mkatt true (Some 0) None false)] (Some v) None false [] []) s, ROk [] [] [])
       end
   | ODefine v name t order =>
       with_att s v (fun key d a =>
@@ -359,7 +365,7 @@ Definition step (s : state) (o : op) : state * res :=
       with_att s v (fun key d a =>
         let d' := mkvd (if a_write a then [] else v_defs d) (v_schema d) (v_full d) (v_tab d) (del_att v (v_atts d))
                        (v_mover d) (v_rlset d)
-                       (match v_schema d with None => true | Some _ => false end) in
+                       (match v_schema d with None => true | Some _ => false end) (v_name d) (v_class d) in
         (set key d' s, ROk [] [] []))
   | OAttach v wr =>
       match lookup v s with
@@ -382,6 +388,18 @@ Definition step (s : state) (o : op) : state * res :=
                               (map f_name sch) [])
         end)
   | OElts v => with_att s v (fun key d a => (s, ROk [zlen (v_tab d)] [] []))
+  | OSetName v nm =>
+      with_att s v (fun key d a =>
+        if negb (a_write a) then (s, RFail) else
+        (set key (mkvd (v_defs d) (v_schema d) (v_full d) (v_tab d) (v_atts d) (v_mover d) (v_rlset d) (v_bad d)
+                       (firstn (Z.to_nat VSNAMELENMAX) nm) (v_class d)) s, ROk [] [] []))
+  | OSetClass v nm =>
+      with_att s v (fun key d a =>
+        if negb (a_write a) then (s, RFail) else
+        (set key (mkvd (v_defs d) (v_schema d) (v_full d) (v_tab d) (v_atts d) (v_mover d) (v_rlset d) (v_bad d)
+                       (v_name d) (firstn (Z.to_nat VSNAMELENMAX) nm)) s, ROk [] [] []))
+  | OGetName v => with_att s v (fun key d a => (s, ROk [] [v_name d] []))
+  | OGetClass v => with_att s v (fun key d a => (s, ROk [] [v_class d] []))
   | OSizeof v names =>
       with_att s v (fun key d a =>
         match v_schema d, names with
